@@ -1,6 +1,55 @@
 /-
-  C15 — property reads and writes over the wire are consistent, typed, all-or-nothing.
-  (in progress)
+  C15 — Property reads and writes over the wire are consistent, typed, all-or-nothing.
+
+  Model: `BacVerif.Obj` (Model/Object.lean) — a transcription of
+  service/object.py (do_ReadPropertyRequest, do_WritePropertyRequest,
+  read_property_to_any / _to_result_element, do_ReadPropertyMultipleRequest),
+  Property.ReadProperty / WriteProperty, ArrayOf.__getitem__/__setitem__,
+  CurrentPropertyList, WriteableObjectName, Commandable.WriteProperty, with the
+  exception → Error / Reject mapping of app.py / appservice.py; object types and
+  property descriptors from the table GENERATED out of the live registry
+  (Gen/Objects.lean).  The model describes the tree with fixes/C15-*.patch.
+
+  Property text → formal statement
+  * "After a WriteProperty request is acknowledged, ReadProperty of the same
+    property (and array element) returns the written value"
+        → `write_then_read` (objects without the Commandable mix-in: whole value,
+          element 1..n, and index 0 = the written count),
+          `write_then_read_cmd` (commandable objects, priorities 1..16: the command
+          reads back from priorityArray[priority])
+  * "a write that is refused … leaves every property unchanged" (all-or-nothing)
+        → `refused_write_pure` (plain objects, no hypothesis at all),
+          `refused_write_pure_all` (every object kind, under the decidable
+          consistency predicate `deviceOK` of commandable objects),
+          `deviceOK_preserved` + `refused_write_pure_history` (the predicate is an
+          invariant, so the statement holds along every history)
+  * "… (unknown object or property, wrong datatype, read-only, bad array index)
+    is answered with the matching error"
+        → `unknown_object_read/_write`, `unknown_property_read/_write`,
+          `absent_property_read/_write`, `not_an_array_read/_write`,
+          `invalid_array_index_read/_write`, `write_access_denied`,
+          `write_access_denied_custom`, `castOut_error_is_reject`, `ladder_error`
+          (forward direction: the condition implies exactly that refusal)
+  * "Array properties answer index 0 with their length, indexes 1..n with the
+    elements and anything else with an invalid-array-index error"
+        → `array_index_classes`, `array_index_classes_propertyList`
+  * "ReadPropertyMultiple returns, for each referenced property — including the
+    'all', 'required' and 'optional' selectors — exactly what ReadProperty
+    would return or an embedded error"
+        → `rpm_equals_rp` (every element), `selector_ids`, `selects_partition`,
+          `selector_nodup` (the selectors expand to the property sets of the
+          table), `rpm_error_not_embeddable` (when the whole request fails),
+          `rpmEncode_eq_rpEncode` (the two copies of the encoder in the library agree)
+  * the quantifier "every registered object type's properties"
+        → theorems are generic over the table; `generated_table_ok` shows the
+          generated registry well-formed by kernel evaluation (`decide +kernel`);
+          `fresh_object_reads_its_type`, `selector_nodup` use it
+
+  Partial (see notes/C15.md): Python-level type checks are modelled by datatype
+  tags; decoding of constructed values is C03's codec (its outcome is an input:
+  `Wire.dec`); custom property classes are modelled one by one; the converse
+  directions of error_matches ("only under these conditions") are not stated;
+  vendor extensions are out of scope.
 -/
 import BacVerif.Model.Object
 import BacVerif.Gen.Objects
@@ -917,9 +966,9 @@ theorem resolveOid_idem (d : Device) (oid : Oid) : resolveOid d (resolveOid d oi
   by_cases h : oid = (otDevice, wildcardInstance)
   · subst h
     cases hl : d.localDev with
-    | none => simp [hl]
+    | none => simp
     | some l =>
-      simp only [hl, ↓reduceIte]
+      simp only [↓reduceIte]
       split <;> rfl
   · simp [h]
 
@@ -1134,16 +1183,16 @@ theorem selector_ids (o : Object) (sel : Nat) (idx : Option Nat) :
           · rename_i hunk
             simp at h; subst h
             have := hiff.mp hunk
-            simp [List.filter_cons, hsel, this, ih es' hrest]
+            simp [hsel, this, ih es' hrest]
           · rename_i hunk
             simp at h; subst h
             have : isUnknownProperty (readObject o s.d.id idx) = false := by
               cases hb : isUnknownProperty (readObject o s.d.id idx) with
               | false => rfl
               | true => exact absurd (hiff.mpr hb) hunk
-            simp [List.filter_cons, hsel, this, ih es' hrest, hpid]
+            simp [hsel, this, ih es' hrest, hpid]
     · rename_i hsel
-      simp [List.filter_cons, hsel, ih es h]
+      simp [hsel, ih es h]
 
 /-- `required` and `optional` partition `all` -/
 theorem selects_partition (d : PropDesc) :
@@ -1786,6 +1835,125 @@ theorem refused_write_pure_history (d : Device) (rs : List WriteReq) (r : WriteR
     (writeService (runWrites d rs) r).1 = runWrites d rs :=
   refused_write_pure_all _ r e (deviceOK_runWrites d rs h) href
 
+/-! ### write then read on a commandable object: the command sits in its slot -/
+
+/-- the object after mutation 1 of `cmdSlotWrite` -/
+abbrev slotObj (o : Object) (c : Cmd) (slots : List Item) (k : Nat) (it : Item) : Object :=
+  { o with props := setSlot c.pa (.arr (slots.set k it)) o.props }
+
+theorem cmdSettle_pa (d : Device) (o1 : Object) (c : Cmd) (hne : c.pa ≠ c.pv) :
+    findSlot c.pa (cmdSettle d o1 c).1.props = findSlot c.pa o1.props := by
+  unfold cmdSettle
+  split
+  · split
+    · simp only
+      split
+      · rfl
+      · split
+        · rcases objWritePlain_cases d o1 c.pv _ none with ⟨e', he⟩ | ⟨s, _, hcase⟩
+          · rw [he]
+          · rcases hcase with ⟨_, hobjw⟩ | ⟨nv, _, hobjw⟩
+            · rw [hobjw]
+            · rw [hobjw]; exact findSlot_setSlot_ne _ _ _ _ hne
+        · rfl
+    · rfl
+  · rfl
+
+/-- **write_then_read, commandable objects, priorities 1..16**: after an
+    acknowledged write of presentValue with priority `p` (16 when the request
+    has none), `priorityArray[p]` reads back the written value — or Null after
+    a relinquish.  (What presentValue itself then shows is C17's theorem.) -/
+theorem write_then_read_cmd (d d' : Device) (r : WriteReq) (o : Object) (c : Cmd)
+    (hobj : findObj r.oid d.objs = some o) (hcmd : o.cmd = some c) (hok : cmdOK o c = true)
+    (hpid : r.pid = c.pv) (hwild : r.oid ≠ (otDevice, wildcardInstance))
+    (hack : writeService d r = (d', .ok ())) :
+    (1 ≤ effPrio r.prio ∧ effPrio r.prio ≤ 16) ∧
+    readService d' r.oid c.pa (some (effPrio r.prio).toNat) =
+      .ok (if isAppNull r.value.tags then [nullTag] else r.value.tags) := by
+  obtain ⟨n1, n2, n3, pv, pa, rd, el, slots, rit, hpv, hpa, hrd, hcu, hmut, hcu2, hmut2, harr, hcu3, hdt3, hdt,
+    hpav, hrdv, hlen, hr, hs⟩ := cmdOK_elim o c hok
+  generalize hp : effPrio r.prio = p at *
+  unfold writeService at hack
+  simp only [hobj] at hack
+  cases hpre : objRead o r.pid r.idx with
+  | error e => simp [hpre] at hack
+  | ok rv0 =>
+    simp only [hpre] at hack
+    have hs' : findSlot r.pid o.props = some pv := by rw [hpid]; exact hpv
+    cases hc : castOut pv.d.dt r.idx r.value with
+    | error e => cases rv0 <;> simp [hs', hc] at hack
+    | ok v =>
+      have hrv0 : rv0 ≠ .none := by intro h; subst h; simp at hack
+      have hack' : ({ d with objs := setObj r.oid (objWrite d o r.pid v r.idx r.prio).1 d.objs },
+                    (objWrite d o r.pid v r.idx r.prio).2) = (d', Except.ok ()) := by
+        cases rv0 <;> simp_all
+      simp only [Prod.mk.injEq] at hack'
+      obtain ⟨hd', hres⟩ := hack'
+      have how : objWrite d o r.pid v r.idx r.prio = cmdSlotWrite d o c v p := by
+        simp only [objWrite, hcmd, objWriteCmd, hpid, ↓reduceIte, hp]
+      rw [how] at hd' hres
+      -- the index on presentValue: the pre-read only passes without one
+      have hidx : r.idx = none := by
+        cases hi : r.idx with
+        | none => rfl
+        | some i =>
+          rw [hi] at hpre
+          simp [objRead, hs', propRead, hcu, stdRead, hdt, DT.isArray] at hpre
+      -- bounds and the slot content
+      unfold cmdSlotWrite at hres hd'
+      by_cases hi0 : p = 0
+      · simp [hi0] at hres
+      · by_cases hir : p < 1 ∨ p > 16
+        · simp [hi0, hir] at hres
+        · simp only [hi0, hir, ↓reduceIte, hpa, hpv, hpav] at hres hd'
+          have hb : 1 ≤ p ∧ p ≤ 16 := by omega
+          refine ⟨hb, ?_⟩
+          have key : ∀ it : Item,
+              encItem it = .ok (if isAppNull r.value.tags then [nullTag] else r.value.tags) →
+              d' = { d with objs := setObj r.oid (cmdSettle d (slotObj o c slots (p.toNat - 1) it) c).1 d.objs } →
+              readService d' r.oid c.pa (some p.toNat) =
+                .ok (if isAppNull r.value.tags then [nullTag] else r.value.tags) := by
+            intro it henc hd'
+            subst hd'
+            unfold readService
+            rw [resolveOid_of_ne _ _ hwild]
+            simp only [findObj_setObj _ _ _ _ hobj]
+            rw [cmdSettle_pa _ _ _ n1]
+            simp only [findSlot_setSlot _ _ _ _ hpa]
+            have hpn : p.toNat ≤ 16 := by omega
+            have hp0 : p.toNat ≠ 0 := by omega
+            have hk : p.toNat - 1 < slots.length := by omega
+            have h16 : ¬ (16 < p) := by omega
+            have hget : (slots.set (p.toNat - 1) it)[p.toNat - 1]? = some it :=
+              List.getElem?_set_self hk
+            simp [propRead, hcu2, stdRead, harr, arrayGet, hlen, hp0, h16, hget, rpEncode, henc]
+          cases v with
+          | null =>
+            simp only at hres hd'
+            have hnull : isAppNull r.value.tags = true := by
+              cases hn : isAppNull r.value.tags with
+              | true => rfl
+              | false =>
+                simp only [castOut, hn, Bool.false_eq_true, ↓reduceIte, hdt] at hc
+                have := castElem_one _ _ _ hc
+                simp at this
+            exact key (.enc [nullTag]) (by simp [encItem, hnull]) hd'.symm
+          | many e' its => simp at hres
+          | one e' it =>
+            simp only [hdt] at hres hd'
+            by_cases hv : elemValid el e' it = true
+            · simp only [hv, ↓reduceIte] at hres hd'
+              have hnull : isAppNull r.value.tags = false := by
+                cases hn : isAppNull r.value.tags with
+                | false => rfl
+                | true => rw [castOut_null _ _ _ hn] at hc; simp at hc
+              simp only [castOut, hnull, Bool.false_eq_true, ↓reduceIte, hdt] at hc
+              have hone := castElem_one _ _ _ hc
+              simp only [WVal.one.injEq] at hone
+              obtain ⟨_, hit⟩ := hone
+              exact key it (by simp [encItem, hnull, hit]) hd'.symm
+            · simp [hv] at hres
+
 /-! ## the generated registry: well-formedness, discharged by kernel evaluation -/
 
 def idsNodup : List Nat → Bool
@@ -1932,5 +2100,99 @@ theorem mkObject_ids (ty : Nat) (props : List PropDesc) (cmd : Option Cmd) (init
   intro p _
   simp only [Function.comp]
   unfold initSlot; split <;> (try split) <;> rfl
+
+
+/-! ## non-vacuity: concrete instances that meet the hypotheses
+
+  A device built from the GENERATED table: an analogValue object of a vendor
+  subclass that re-declares presentValue (Real) and tags (array of NameValue)
+  writable, and a commandable analogValue (`Commandable(Real)`), both with
+  initial values.  Every `example` below is closed by kernel evaluation. -/
+
+namespace Ex
+open Gen.Objects
+
+instance instDecEqExcept {ε α : Type} [DecidableEq ε] [DecidableEq α] : DecidableEq (Except ε α)
+  | .ok a, .ok b => if h : a = b then isTrue (by rw [h]) else isFalse (by intro h'; cases h'; exact h rfl)
+  | .error a, .error b =>
+      if h : a = b then isTrue (by rw [h]) else isFalse (by intro h'; cases h'; exact h rfl)
+  | .ok _, .error _ => isFalse (by intro h; cases h)
+  | .error _, .ok _ => isFalse (by intro h; cases h)
+
+def real (b : Bytes) : Item := .enc [appTag 4 b]
+def one : Item := real [0x3f, 0x80, 0, 0]
+def two : Item := real [0x40, 0, 0, 0]
+def nv (name : Bytes) : Item := .enc [⟨.ctx, 0, name.length, name⟩]
+
+/-- `class AVW(AnalogValueObject): properties = [WritableProperty('presentValue', Real),
+    WritableProperty('tags', ArrayOf(NameValue))]` -/
+def avwProps : List PropDesc :=
+  mergeProps [⟨85, 348, .scalar (.atomic 4 0 none), false, true, .std, none⟩,
+              ⟨486, 427, .arrayOf (.cons 4) none (.enc [⟨.ctx, 0, 1, [0]⟩]), false, true, .std, none⟩]
+    t_analogValue.props
+
+def av : Object :=
+  mkObject 2 avwProps none
+    [(75, .one (.enc [appTag 12 [0, 0x80, 0, 1]])), (77, .one (.enc [appTag 7 [0, 0x61]])),
+     (85, .one one), (486, .arr [nv [0, 0x61], nv [0, 0x62], nv [0, 0x63]])]
+
+/-- `AnalogValueCmdObject`: `Commandable(Real)` over AnalogValueObject -/
+def cmdProps : List PropDesc :=
+  mergeProps [⟨85, 348, .scalar (.atomic 4 0 none), false, true, .std, none⟩,
+              ⟨87, 350, .arrayOf (.cons 5) (some 16) (.enc [nullTag]), false, false, .std, none⟩,
+              ⟨104, 378, .scalar (.atomic 4 0 none), false, false, .std, none⟩]
+    t_analogValue.props
+
+def avc : Object :=
+  mkObject 2 cmdProps (some ⟨85, 87, 104⟩)
+    [(75, .one (.enc [appTag 12 [0, 0x80, 0, 2]])), (77, .one (.enc [appTag 7 [0, 0x62]])),
+     (85, .one one), (87, .arr (List.replicate 16 (.enc [nullTag]))), (104, .one one)]
+
+def dev : Device := { objs := [((2, 1), av), ((2, 2), avc)], localDev := none }
+
+def wire (ts : List Tag) : Wire := { chunks := [ts], dec := .ok }
+
+/-- WriteProperty(analogValue 1, presentValue, Real 2.0) -/
+def wPv : WriteReq := ⟨(2, 1), 85, none, wire [appTag 4 [0x40, 0, 0, 0]], none⟩
+/-- WriteProperty(analogValue 1, tags[2], NameValue "z") -/
+def wTag : WriteReq := ⟨(2, 1), 486, some 2, wire [⟨.ctx, 0, 2, [0, 0x7a]⟩], none⟩
+/-- WriteProperty(analogValue 1, tags[0], 5): resize -/
+def wLen : WriteReq := ⟨(2, 1), 486, some 0, wire [appTag 2 [5]], none⟩
+/-- WriteProperty(analogValue 1, presentValue, Unsigned 1): wrong datatype -/
+def wBad : WriteReq := ⟨(2, 1), 85, none, wire [appTag 2 [1]], none⟩
+/-- WriteProperty(analogValue 1, objectName, "x"): read-only -/
+def wRo : WriteReq := ⟨(2, 1), 77, none, wire [appTag 7 [0, 0x78]], none⟩
+/-- WriteProperty(analogValue 2, presentValue, Real 2.0, priority 8) -/
+def wCmd : WriteReq := ⟨(2, 2), 85, none, wire [appTag 4 [0x40, 0, 0, 0]], some 8⟩
+/-- … priority 17: refused -/
+def wCmd17 : WriteReq := ⟨(2, 2), 85, none, wire [appTag 4 [0x40, 0, 0, 0]], some 17⟩
+
+-- write_then_read: hypotheses hold for a whole value, an element and a resize
+example : findObj wPv.oid dev.objs = some av ∧ av.cmd = none ∧
+    wPv.oid ≠ (otDevice, wildcardInstance) ∧ (writeService dev wPv).2 = .ok () := by decide +kernel
+example : (writeService dev wTag).2 = .ok () ∧ (writeService dev wLen).2 = .ok () := by decide +kernel
+-- … and the conclusion is what one expects on them (a test, not the theorem)
+example : readService (writeService dev wLen).1 (2, 1) 486 (some 0) = .ok [appTag 2 [5]] := by
+  decide +kernel
+-- refused_write_pure / error_matches: refusals of three different kinds exist
+example : (writeService dev wBad).2 = .error (.reject rejInvalidTag) ∧
+    (writeService dev wRo).2 = .error .writeAccessDenied ∧
+    (writeService dev wCmd17).2 = .error .invalidArrayIndex := by decide +kernel
+-- the state hypothesis of refused_write_pure_all holds, with a commandable object present
+example : deviceOK dev = true ∧ cmdOK avc ⟨85, 87, 104⟩ = true := by decide +kernel
+-- write_then_read_cmd: an acknowledged command at priority 8
+example : (writeService dev wCmd).2 = .ok () ∧ avc.cmd = some ⟨85, 87, 104⟩ := by decide +kernel
+-- array_index_classes: a three-element array served by Property.ReadProperty
+example : (findSlot 486 av.props).map (fun s => (s.d.custom, s.d.dt.isArray,
+      match s.v with | .arr l => l.length | _ => 0)) = some (.std, true, 3) := by decide +kernel
+-- rpm_equals_rp: an ack with explicit references, a selector, an unknown object and embedded errors
+example : (match rpmService dev [((2, 1), [⟨85, none⟩, ⟨486, some 9⟩, ⟨pidRequired, none⟩]),
+                                  ((2, 9), [⟨pidAll, none⟩])] with
+    | .ok res => res.map (fun p => p.2.length)
+    | .error _ => []) = [7, 1] := by decide +kernel
+-- fresh_object_reads_its_type: every generated type satisfies typeOK (part of generated_table_ok)
+example : typeOK t_analogValue = true := by decide +kernel
+
+end Ex
 
 end BacVerif.C15
